@@ -8,7 +8,6 @@ import (
 	"fmt"
 	"time"
 	_ "time/tzdata"
-
 )
 
 type zoneSpec struct {
